@@ -171,6 +171,47 @@ SUMMARY = {
            "two recorders in one process (the second inherits the first one's Fitness / extra columns)"),
  "C20-d": ("post_process folded into evaluate with the incumbent hoisted out of the loop: is_best flags are stale within a batch",
            "only_record_best_individuals=True and a batch with two improvements, the second worse than the first"),
+ # ---- third round (asked to avoid every mechanism tried before; interplay of two sites, rarely used configurations)
+ "C01-e": ("list refinements share generate_sized_list(), which reads the element type with strip_annotations (unwraps every list / Annotated layer)",
+           "Annotated[list[list[int]], ListSizeBetween(..)]: a flat list of ints is produced"),
+ "C01-f": ("GE ListWrapper.random_float returns min unchanged when min == max",
+           "GE, a FloatRange written with int bounds whose range collapses (Dependent FloatRange(start, 3) with start == 3): an int in a float field"),
+ "C02-e": ("MetaHandlerGenerator gains __eq__ / __hash__ by class and repr; StringSizeBetween's repr omits the alphabet, typing merges the Annotated types",
+           "two StringSizeBetween refinements with equal bounds and different alphabets in one process"),
+ "C02-f": ("NativeRandomSource.random_float computed as (1-u)*min + u*max (rounds twice)",
+           "FloatRange(1.7, 1.7): the generated value is one ulp off and its own validate rejects it"),
+ "C03-e": ("create_node's retry list aliases the grammar's production list (list(...) dropped): a failed production is removed from the grammar",
+           "a context-dependent production (VarRange([]) raises) tried once; later positions at remaining depth 1 have no production left"),
+ "C03-f": ("concrete and list values are wrapped with nctx (their children's context) instead of the context they were created under",
+           "tree representation, concrete start symbol, mutations chained on their own results: the root drifts one level per mutation"),
+ "C04-e": ("recursive_prods is filled by a comprehension that skips abstract symbols",
+           "a Union[<abstract>, <leaf production>] field, the Full decider, max_depth >= 4: branches end early"),
+ "C04-f": ("list refinements share element_type_of(), which returns strip_annotations(list_type)",
+           "a size-refined list whose element type carries its own refinement: elements outside it are produced"),
+ "C05-e": ("preprocess resets distances with setdefault: the base-type seeds (0) of __init__ survive in expansion-depthing mode",
+           "expansion_depthing=True: every symbol whose shallowest program ends in an int / float / str leaf is one level too shallow"),
+ "C05-f": ("process_reachability reports a change only when the source itself is new to the set ('src not in reach')",
+           "mutual recursion through three or more abstract stages whose depths settle quickly: recursive_prods misses the cycle"),
+ "C06-e": ("SGE mutate copies dict(genotype.dna): the mutated gene list is shared with the parent",
+           "two mutations along shared lists (hill climbing's neighbourhood, parent -> child -> grandchild)"),
+ "C06-f": ("stack-GGGP mutate retries up to five point mutations on one working copy when the mutant does not decode",
+           "short genomes / small failures_limit: genes written by rejected attempts stay in the offspring"),
+ "C09-e": ("ParallelEvaluator zips the computed fitnesses with the whole batch instead of the pending individuals",
+           "ParallelEvaluator and a batch mixing evaluated and unevaluated individuals: cached fitnesses are overwritten"),
+ "C09-f": ("dSGE mutate returns the parent Genotype object itself when it has no genes yet",
+           "a never-mapped dynamic-SGE individual mutated, then mapped: the parent's genes grow"),
+ "C11-e": ("relabel_nodes accounts for plain-value children by hand and skips their distance update",
+           "expansion_depthing=True and a production whose fields are all plain values: distance one too small"),
+ "C11-f": ("update_weights rebuilds on a fresh Grammar(start, nodes) and adopts its __dict__: the depth mode is dropped",
+           "expansion_depthing=True together with @weight (or an explicit update_weights mid-run): labels of two conventions"),
+ "C12-e": ("the multi-objective front is rebuilt with is_dominated(ind, [old]) instead of is_dominated(old, [ind])",
+           "an improvement followed by a value between an earlier best and the current best (aggregates 1, 3, 2)"),
+ "C12-f": ("GeneticProgramming.search returns best_individual(population.individuals, problem) instead of the tracker's best",
+           "the best individual drops out of the population (no elitism slot for population_size 10)"),
+ "C15-e": ("GrowInitializer's retry loop rewritten as for / for-else: a slot whose max_tries attempts all fail is skipped",
+           "a grammar whose minimal depth is above 1: the initial population is short by (depth - 1)"),
+ "C15-f": ("ParallelStep / ExclusiveParallelStep skip a sub-step whose weight is 0 although compute_ranges gave it a non-empty last slice",
+           "a zero-weight last step and rounded shares that under-shoot ([1,1,0] with k=5 gives 4)"),
 }
 
 
@@ -191,7 +232,8 @@ def main():
     for name in sorted(SUMMARY):
         vf = os.path.join(VER, name + ".txt")
         prop, x = name.split("-")
-        src = os.path.join(OUT, prop, x) if x in "ab" else os.path.join("/tmp/seed2_out", prop, {"c": "a", "d": "b"}[x])
+        src = os.path.join(OUT, prop, x) if x in "ab" else os.path.join("/tmp/seed2_out", prop, {"c": "a", "d": "b"}[x]) if x in "cd" \
+            else os.path.join("/tmp/seed3_out", prop, {"e": "a", "f": "b"}[x])
         if not os.path.exists(vf):
             dropped.append((name, "not verified yet"))
             continue
@@ -219,7 +261,8 @@ def main():
             "origin": "independent sub-agent given only the property text and a scratch worktree"
                       + (" (ported by hand to the repaired compute_ranges)" if name == "C15-a" else "")
                       + (" (ported by hand to the repaired update_weights)" if name == "C05-d" else "")
-                      + ("; second round: asked for a subtler change arriving inside a plausible refactoring" if x in "cd" else ""),
+                      + ("; second round: asked for a subtler change arriving inside a plausible refactoring" if x in "cd" else "")
+                      + ("; third round: told which mechanisms had been tried, asked for different ones (interplay of two sites, rare configurations)" if x in "ef" else ""),
             "verified_by_me": {
                 "repo_head": v.get("HEAD"), "patch_applies": v.get("applies"), "library_imports": v.get("imports_exit") == "0",
                 "demo_exit_without_change": int(v.get("demo_clean_exit")), "demo_exit_with_change": int(v.get("demo_patched_exit")),
